@@ -308,6 +308,37 @@ pub fn run(args: &Args, rep: &mut Report) {
                     }
                 }
             }
+            // instants from which calendar arithmetic lands in the gap / fold: the transition's UTC
+            // instant minus k whole days (k = 7 always, three more rotating), with expressions that
+            // keep one state for weeks, so that an interval or a look-ahead crosses the transition
+            for year in y0..=y1 {
+                let trs = transitions(tz, year, &mut cache);
+                for (ti, tr) in trs.iter().filter(|t| t.0.date().year() == year).enumerate() {
+                    let ks_all = [1i64, 2, 3, 6, 8, 14, 21, 28, 30, 31, 365, 366];
+                    let rot = (ti as u64 + year as u64 + args.seed) as usize;
+                    let ks = [7, ks_all[rot % 12], ks_all[(rot + 5) % 12], ks_all[(rot + 9) % 12]];
+                    let gap = (tr.2 - tr.1).abs() as i64;
+                    for (j, k) in ks.iter().enumerate() {
+                        let delta = [1i64, gap / 2, gap - 1, -1][(j + rot) % 4];
+                        let i_utc = tr.0 - Duration::days(*k) + Duration::seconds(delta);
+                        let text = ["24/7", "Mar-Oct 10:00-18:00", "Jan-Feb,Nov-Dec unknown; Jun off"][(j + rot) % 3];
+                        let hol = HolSpec::None;
+                        let Some((naive_oh, tz_oh)) = build_both(text, &hol, tz) else { continue };
+                        rep.evaluations += 1;
+                        rep.begin(&format!("sweep-k {text} | {tz} | {i_utc}"));
+                        match check(&naive_oh, &tz_oh, tz, i_utc, &[], Duration::days(*k + 2), &mut st) {
+                            Ok(()) => rep.count("sweep_days_before_transition_checks_passed"),
+                            Err(msg) => {
+                                let ast = lib_parse(text).unwrap();
+                                report_failure(args, rep, &ast, &hol, tz, i_utc, &[], Duration::days(*k + 2), &msg);
+                                if rep.full() {
+                                    break 'sweep;
+                                }
+                            }
+                        }
+                    }
+                }
+            }
             rep.count("sweep_zones");
             if any {
                 rep.count("sweep_zones_with_transitions");
